@@ -255,3 +255,34 @@ Definition sub_check (T : tables) (sels : list (path * choice)) (o : value) (obs
   | None => is_raise obs
   | Some e => match obs with Ok o' => value_eqb o' e | Err _ => false end
   end.
+
+(* ---------- selections as trees (the nested form), their abstract reading and their rendering ---------- *)
+Definition sel_of_choice (c : choice) : sel :=
+  match c with CKey k => SKey k | CType c' => SType c' | CInst v => SInst v | CNone => SNone end.
+
+(* per member: what to put there (if anything), and the selections below it *)
+Inductive stree := SNode (own : option choice) (kids : list (string * stree)).
+Definition forest := list (string * stree).
+
+(* the abstract selections a forest denotes: a member before the members below it *)
+Fixpoint paths_tree (t : stree) : list (path * choice) :=
+  match t with
+  | SNode own kids =>
+      ((match own with Some c => [([], c)] | None => [] end) ++
+       flat_map (fun kt => map (fun pc => (fst kt :: fst pc, snd pc)) (paths_tree (snd kt))) kids)%list
+  end.
+Definition paths_forest (F : forest) : list (path * choice) :=
+  flat_map (fun kt => map (fun pc => (fst kt :: fst pc, snd pc)) (paths_tree (snd kt))) F.
+
+(* the nested dict that is passed: {"a": {"__key__": choice, "b": ...}}; a member without selections below it is
+   passed as the bare choice *)
+Fixpoint render_tree (kw : string) (t : stree) : sel :=
+  match t with
+  | SNode own kids =>
+      match own, kids with
+      | Some c, [] => sel_of_choice c
+      | _, _ => SDict ((match own with Some c => [(kw, sel_of_choice c)] | None => [] end) ++
+                       map (fun kt => (fst kt, render_tree kw (snd kt))) kids)%list
+      end
+  end.
+Definition render_forest (kw : string) (F : forest) : sdict := map (fun kt => (fst kt, render_tree kw (snd kt))) F.
